@@ -157,6 +157,21 @@ def check_conversion(ctx, fn: ast.AST, where: str) -> None:
                    "%s counts a malformed weight as missing for its own sum test but leaves the value in the status report: when the other weights "
                    "sum to one they are kept here, while the status monitor - reading the same report - cannot convert the entry and falls back "
                    "to uniform weights; the two normalisation sites disagree" % where, construct="%s: malformed weight replaced in the report" % where)
+            # a stage without a weight gets one WRITTEN: the monitor reads the report by key.  Either the conversion reads the key by
+            # subscript (the defaults stored before it guarantee the key), or an unconditional store into the entry is in the same loop body
+            arg = c.args[0]
+            by_get = any(isinstance(x, ast.Call) and last_attr(x) == "get" and x.args and isinstance(x.args[0], ast.Constant) and x.args[0].value == "stage-weight"
+                         for x in ast.walk(arg))
+            loops_ = [a_ for a_ in source.ancestors(c) if isinstance(a_, ast.For)]
+            stored_always = any(isinstance(st, ast.Assign) and any(isinstance(t_, ast.Subscript) and isinstance(t_.slice, ast.Constant) and t_.slice.value == "stage-weight"
+                                                                   for t_ in st.targets) for lp_ in loops_[:1] for st in lp_.body)
+            ok_key = (not by_get) or stored_always
+            ctx.ob(RID, c, ok_key,
+                   "%s: the weight is read by key (a stage without a weight had 0 stored for it), or stored back unconditionally" % where if ok_key else
+                   "%s counts a stage without a weight as %s for its own sum test but does not write the weight into the stage's entry: when the given "
+                   "weights sum to one they are kept, the status monitor - reading report[stage]['stage-weight'] - finds no key, takes its "
+                   "fallback and replaces ALL weights by 1/n ({1: {'stage-weight': 1.0}} is reported as [0.5, 0.5])" % (where, short(arg, 50)),
+                   construct="%s: a missing weight is written into the report" % where)
         for need in ("ValueError", "TypeError"):
             ok = everything or need in caught
             ctx.ob(RID, c, ok, "%s: %s of the conversion is handled (the weight counts as missing)" % (where, need) if ok else
@@ -312,7 +327,12 @@ def run(ctx) -> None:
         return None
     stores = [n for n in cfg.nodes if stores_weight(n) is not None]
     # stores of the "missing" weight: the literal 0, or the replacement made by the handler of a failed conversion
-    defaults0 = [n for n in stores if const_num(n.ast.value) == 0 or any(isinstance(a_, ast.ExceptHandler) for a_ in source.ancestors(n.ast))]
+    def keeps_given(v: ast.AST) -> bool:
+        # <entry>.get('stage-weight', 0): the given weight when there is one, the 'missing' value otherwise
+        return isinstance(v, ast.Call) and last_attr(v) == "get" and len(v.args) == 2 and isinstance(v.args[0], ast.Constant) \
+            and v.args[0].value == "stage-weight" and const_num(v.args[1]) == 0
+    defaults0 = [n for n in stores if const_num(n.ast.value) == 0 or keeps_given(n.ast.value)
+                 or any(isinstance(a_, ast.ExceptHandler) for a_ in source.ancestors(n.ast))]
     replaced = [n for n in stores if n not in defaults0]
     sum_tests, neg_tests = check_site(ctx, idv, "FlowIR.inject_default_values", replaced, cfg, wl)
 
